@@ -1,6 +1,6 @@
 (* Model/Gen.v — executable model of cmd/varlink-go-interface-generator/main.go
    (generateTemplate), statement by statement, up to but excluding the call of
-   format.Source: `text` is ret_string after the @IMPORTS@ replacement.
+   format.Source: `text` is ret_string (b.String()).
 
    The Go tree has Type{Kind, ElementType, Alias, Fields}; the Coq tree is `ty`.
    t.Fields is the field list of a TStruct, the (typeless) names of a TEnum and
@@ -31,11 +31,6 @@ Local Notation cat := concat_bytes.
 Fixpoint contains (needle hay : bytes) : bool :=
   if is_prefix needle hay then true
   else match hay with [] => false | _ :: r => contains needle r end.
-
-(* strings.Replace(hay, needle, repl, 1) for a non-empty needle *)
-Fixpoint replace_first (needle repl hay : bytes) : bytes :=
-  if is_prefix needle hay then repl ++ skipn (List.length needle) hay
-  else match hay with [] => [] | x :: r => x :: replace_first needle repl r end.
 
 (* strings.TrimRight(s, "\n") *)
 Fixpoint trim_right_lf (s : bytes) : bytes :=
@@ -132,6 +127,21 @@ Definition write_conversion (t : ty) (json : bool) (ident : nat) (expr : bytes) 
           else write_type t json ident);
          b "("; expr; b ")"]
   else expr.
+
+(* usesObject: the Go rendering of t mentions json.RawMessage.  The names of an
+   enum are not inspected (Kind is neither struct nor a container). *)
+Fixpoint uses_object (t : ty) : bool :=
+  match t with
+  | TObject => true
+  | TArray e | TMap e | TMaybe e => uses_object e
+  | TStruct fs =>
+    (fix any (l : list (bytes * ty)) : bool :=
+       match l with
+       | [] => false
+       | (_, ft) :: r => uses_object ft || any r
+       end) fs
+  | _ => false
+  end.
 
 (* t.Fields as far as the generator can use it without crashing: the typed
    fields of a struct; nothing for the other kinds (see gen_panics for enums) *)
@@ -468,16 +478,45 @@ Definition gen_tail (pkg : bytes) : bytes :=
        TAB; b "return &VarlinkInterface{m}"; NL;
        b "}"; NL].
 
-Definition imports_marker : bytes := b "@IMPORTS@".
-
-(* everything written before "@IMPORTS@" *)
+(* everything written before the import block *)
 Definition gen_head (d : idl) (pkg : bytes) : bytes :=
   cat [b "// Code generated by github.com/varlink/go/cmd/varlink-go-interface-generator, DO NOT EDIT.";
        NL; NL;
        write_doc_string (i_doc d);
        b "package "; pkg; NL; NL].
 
-(* everything written after "@IMPORTS@" *)
+(* needJSON / needFmt: decided from the tree, not from the text *)
+Definition member_uses_object (m : member) : bool :=
+  match m with
+  | MAlias _ _ t => uses_object t
+  | MMethod _ _ i o => uses_object i || uses_object o
+  | MError _ _ _ => false
+  end.
+
+(* needJSON := len(midl.Errors) > 0, then || usesObject over aliases and methods *)
+Definition need_json (d : idl) : bool :=
+  negb (match i_errors d with [] => true | _ => false end)
+  || existsb member_uses_object (i_aliases d)
+  || existsb member_uses_object (i_methods d).
+
+Definition error_has_fields (m : member) : bool :=
+  match m with
+  | MError _ _ o => match error_fields (error_type o) with [] => false | _ => true end
+  | _ => false
+  end.
+
+(* needFmt: some error has parameters *)
+Definition need_fmt (d : idl) : bool := existsb error_has_fields (i_errors d).
+
+(* fmt.Sprintf("import (\n%s\n)", strings.Join(imports, "\n\t")) without the trailing "\n\n" *)
+Definition imports_block (d : idl) : bytes :=
+  let imports :=
+    [cat [QUOTE; b "github.com/varlink/go/varlink"; QUOTE]; cat [QUOTE; b "context"; QUOTE]]
+    ++ (if need_json d then [cat [QUOTE; b "encoding/json"; QUOTE]] else [])
+    ++ (if need_fmt d then [cat [QUOTE; b "fmt"; QUOTE]] else []) in
+  cat [b "import ("; NL; join (NL ++ TAB) imports; NL; b ")"].
+
+(* everything written after the import block (its "\n\n" included) *)
 Definition gen_body (d : idl) (pkg : bytes) : bytes :=
   let iname := i_name d in
   cat [NL; NL;
@@ -509,21 +548,9 @@ Definition gen_body (d : idl) (pkg : bytes) : bytes :=
 
 (* b.String() *)
 Definition ret_string (d : idl) (pkg : bytes) : bytes :=
-  cat [gen_head d pkg; imports_marker; gen_body d pkg].
+  cat [gen_head d pkg; imports_block d; gen_body d pkg].
 
-(* fmt.Sprintf("import (\n%s\n)", strings.Join(imports, "\n\t")) *)
-Definition imports_block (s : bytes) : bytes :=
-  let imports :=
-    [cat [QUOTE; b "github.com/varlink/go/varlink"; QUOTE]]
-    ++ (if contains (b "context.Context") s then [cat [QUOTE; b "context"; QUOTE]] else [])
-    ++ (if contains (b "json.RawMessage") s then [cat [QUOTE; b "encoding/json"; QUOTE]] else [])
-    ++ (if contains (b "fmt.Sprintf") s then [cat [QUOTE; b "fmt"; QUOTE]] else []) in
-  cat [b "import ("; NL; join (NL ++ TAB) imports; NL; b ")"].
-
-Definition gen_text (d : idl) : bytes :=
-  let pkg := pkgname_of (i_name d) in
-  let s := ret_string d pkg in
-  replace_first imports_marker (imports_block s) s.
+Definition gen_text (d : idl) : bytes := ret_string d (pkgname_of (i_name d)).
 
 (* generateTemplate up to (excluding) format.Source *)
 Definition generate (description : bytes) : gen_res :=
